@@ -109,7 +109,10 @@ pub fn scripts(nodes: usize, all_pairs: bool) -> Vec<Script> {
     }
     // two operations: both on the primary (same session), and one per node
     let pairs: Vec<(&str, &str)> = if !all_pairs {
-        vec![("set k v1", "set k v2"), ("set k v1", "set k v1"), ("set k v1", "remove k"), ("increment c", "increment c"), ("set k v1", "increment c"), ("set-safe k 1 s1", "set-safe k 1 s2"), ("remove k", "set k v2")]
+        vec![("set k v1", "set k v2"), ("set k v1", "set k v1"), ("set k v1", "remove k"), ("increment c", "increment c"), ("set k v1", "increment c"), ("set-safe k 1 s1", "set-safe k 1 s2"), ("remove k", "set k v2"),
+            // a plain set that carries the value the other node's operation leads to (c is 5: 6 after the increment),
+            // and a set of the value the key already holds
+            ("increment c", "set c 6"), ("set c 6", "increment c"), ("set k v0b", "set k v9")]
     } else {
         let mut p = vec![];
         for a in menu.iter() {
